@@ -455,7 +455,7 @@ func fuzzParent(seed int64, nrand int, root string) *annh.Sc {
 			return sc
 		}
 		model := "compact"
-		if strings.Contains(string(c.Body), "2:ip") {
+		if strings.Contains(string(c.Body), "5:peersl") {
 			model = "dict"
 		}
 		sc.Line("fz", map[string]any{"tp": c.TP, "case": c.Name, "model": model, "out": r.Out, "npeers": r.NPeers, "nilip": r.NilIP, "ip6": r.IP6, "port0": r.Port0,
